@@ -35,7 +35,7 @@ pub fn run(ctx: &Ctx) -> Outcome {
                     for l in 0..bs {
                         rep.case(|| {
                             let m = &data[..l];
-                            let before = if k == Kind::InPlace { m.to_vec() } else { dirty(l) };
+                            let before = if k.in_place() { m.to_vec() } else { dirty(l) };
                             let mut out = before.clone();
                             let r = rec::cts(cfg, d, Ctor::Inner, false, dir, k, &key, &iv, m, &mut out).expect("harness: ctor");
                             ensure!(r.is_err(), format!("short_message_accepted/{}", d.name), "{} {}({}) accepted a {}-byte message (block size {})", d.ty, dir.s(), k.s(), l, bs);
@@ -44,7 +44,7 @@ pub fn run(ctx: &Ctx) -> Outcome {
                         });
                     }
                     // unequal buffer lengths
-                    if k != Kind::InPlace {
+                    if !k.in_place() {
                         for l in [bs, bs + 1, 2 * bs, 2 * bs + bs / 2 + 1] {
                             for ol in bad_out_lens(l, 1, bs) {
                                 rep.case(|| {
@@ -119,7 +119,7 @@ pub fn run(ctx: &Ctx) -> Outcome {
                             rep.case(|| {
                                 let m = &data[..l];
                                 let a = rec::bm(cfg, d, &key, &ivm);
-                                let before = if k == Kind::InPlace { m.to_vec() } else { dirty(l) };
+                                let before = if k.in_place() { m.to_vec() } else { dirty(l) };
                                 let mut out = before.clone();
                                 let r = a.padded(pad, k, m, &mut out);
                                 ensure!(r.is_err(), format!("padded_dec_nonmultiple_accepted/{}", d.mode), "{} decrypt_padded<{}>({}) accepted {} bytes (block size {})", d.ty, pad.s(), k.s(), l, d.mbs);
